@@ -13,7 +13,7 @@ def run(tier, seed, replay=None):
     differential(check, 'C12', 'c12', 'c12', tier, seed, None, 1, 10, replay_text, sample_lines=8, timeout=1800, shards=10 if tier == 'quick' else 16)
     check.coverage['rule'] = ('each case: in-process server on loopback QUIC; client A (max_attempts 1-3, constant / linear / exponential back-off, step 0/10/40 ms) holds one stream of the '
                               'kind under test, client B the counterpart; the hook closes A\'s connection max_attempts+1..+2 times in a row, after each cut the stream must work again '
-                              '(probe message delivered / request answered; for the requestor also: while a slowly answered call on the recovered handle is in flight, a clone made before the outages makes its first call since the cut and recovers on its own, then makes another: every call must get its own reply); replier_exhaust: after the cut a squatter binds the topic and A must report too-many-retries; kinds rotate over '
+                              '(probe message delivered / request answered; every second publisher case has two 9 KiB messages fed but not flushed in the write buffer when the connection is cut, so that the outage is first seen by poll_ready; for the requestor also: while a slowly answered call on the recovered handle is in flight, a clone made before the outages makes its first call since the cut and recovers on its own, then makes another: every call must get its own reply); replier_exhaust: after the cut a squatter binds the topic and A must report too-many-retries; kinds rotate over '
                               'publisher, subscriber, requestor, replier, replier_exhaust; non-trivial = distinct case line')
     check.coverage['trusted_base'] = TRUSTED_BASE_COMMON + [
         'hook: Client::__verif_close_connection (cargo feature verif-hooks of the selium crate, off by default, add-only)',
